@@ -82,6 +82,16 @@ NEEDS.update({
  "w2_c20_m1": ("_request_methods.py request_encode_body: caller's HTTPHeaderDict no longer copied, setdefault writes Content-Type into it", "the same HTTPHeaderDict passed as headers= to two multipart requests with different boundaries"),
  "w2_c20_m2": ("fields.py from_tuples: content_type = content_type or guess_content_type(filename) for every tuple", "3-tuple (filename, data, None/'') which specifies no Content-Type"),
 })
+NEEDS.update({
+ "w2_c12_m1": ("response.py _handle_chunk: `amt <= self.chunk_left`, the equal branch removed", "chunked framing + sized stream read ending exactly on the boundary of a chunk that is not the last: body truncated silently"),
+ "w2_c12_m2": ("response.py read_chunked: `yield self._decode(...)` without the emptiness test", "chunked + Content-Encoding + a chunk/slice holding only bytes the decoder swallows: empty piece yielded"),
+ "w2_c13_m1": ("response.py release_conn guard: truthiness of length_remaining (same edit as w2_c03_m1)", "chunked response with an undecodable stream, read(n)/read1(n), release_conn() then close(), peer keeps the connection open, second request"),
+ "w2_c13_m2": ("response.py _raw_read: read1 end-of-body branch tested before the IncompleteRead branch", "Content-Length body cut short, consumed with sized read1(n)"),
+ "w2_c18_m1": ("poolmanager.py ProxyManager.connection_from_host: forwarded branch no longer passes pool_kwargs", "ProxyManager + non-https target + settings supplied through pool_kwargs"),
+ "w2_c18_m2": ("poolmanager.py _default_key_normalizer: host .lower().rstrip('.')", "one manager seeing both 'name' and 'name.'"),
+ "w2_c19_m1": ("util/timeout.py read_timeout: clamp max(0, ...) removed in the total-only branch", "Timeout(total=X) with read unset + connect phase longer than total that still succeeds"),
+ "w2_c19_m2": ("connectionpool.py _get_timeout returns the caller's Timeout object itself", "request-level Timeout object with total, passed to a second request after time has elapsed"),
+})
 # missed by the check as it stood when the change arrived -> what was added to the check (then re-run: detected)
 STRENGTHENED = {
  "c01_m1": "C01 op alphabet: PUT with a body whose seek() fails (any second attempt ends in UnrewindableBodyError)",
@@ -112,7 +122,17 @@ STRENGTHENED.update({
  "w2_c09_m1": "C09 per-leg trust domains in the stub TLS layer: caller pins a private CA for destinations, proxy presents a certificate from it",
  "w2_c10_m2": "C10 URL positions with BOTH components present: hostile string in one, legal escapes in the other",
 })
-CAUGHT_BY_OTHER = {"w2_c07_m2": ["C18"], "c09_m2": ["C07", "C09"], "c07_m2": ["C07", "C08"]}
+STRENGTHENED.update({
+ "w2_c14_m1": "C14 grammar: '%' followed by a hex digit and a NON-ASCII decimal digit / two fullwidth digits",
+ "w2_c16_m1": "C16 equality operands: the same content line by line (list/tuple with repeated names) and as a dict with case-variant keys",
+ "w2_c17_m2": "C17 part (d): every container gets the scheduler-aware lock; calls racing clear() are checked for linearizability (returned pools + final cache)",
+ "w2_c18_m1": "C18 family: forwarded requests of a ProxyManager, keyword pairs through pool_kwargs",
+ "w2_c18_m2": "C18 location alphabet: the dotted (absolute) spelling of the host",
+ "w2_c19_m2": "C19: a request that fails before it dials is a violation (was a harness error)",
+ "w2_c20_m1": "C20 routed cases with the caller's own HTTPHeaderDict used for two requests with different boundaries",
+ "w2_c15_m1": "(C15 unchanged: the change is caught by C09's closed-tunnel histories)",
+})
+CAUGHT_BY_OTHER = {"w2_c07_m2": ["C18"], "w2_c15_m1": ["C09"], "c09_m2": ["C07", "C09"], "c07_m2": ["C07", "C08"]}
 
 def main():
     out_root = "/verif/seeded"
